@@ -37,7 +37,7 @@ static const size_t kPrims = 4;
 static const size_t kStack = 256 * 1024;
 
 struct SOp { std::string text; char kind; char sub; uint64_t a, b; };
-struct Script { bool xfail; std::vector<SOp> ops; };
+struct Script { bool xfail; bool raii = false; std::vector<SOp> ops; };
 
 struct RInfo { bool begun = false, finished = false; unsigned done = 0; };
 
@@ -99,6 +99,19 @@ static void identity(World *w, size_t self, const std::string &name, Scheduler &
 static void interpret(World *w, size_t self, std::shared_ptr<Script> sc, const std::string &name, Scheduler &sch) {
     w->info[self].begun = true;
     identity(w, self, name, sch);
+    // RAII scripts (`defr`): `l<m>` constructs a Mutex::Locker (its constructor has no result), `u<m>` ends the innermost
+    // scope when that scope is the one of m (else it is a plain unlock()); when the routine returns the scopes are left
+    // innermost first.  Every ~Locker() is logged as the `u<m>` it is.
+    std::vector<std::pair<uint64_t, std::unique_ptr<Mutex::Locker>>> scopes;
+    auto leave_one = [&]() {
+        uint64_t m = scopes.back().first;
+        scopes.pop_back();                      // ~Locker(): m_.unlock()
+        identity(w, self, name, sch);
+        w->info[self].done++;
+        if (!mute)
+            std::cout << "P e r=" << self << " u" << m << " ok c=" << (sch.isCanceled() ? 1 : 0) << "\n";
+    };
+    auto leave_all = [&]() { while (!scopes.empty()) leave_one(); };
     for (const SOp &o : sc->ops) {
         std::string res = "ok";
         bool failed = false;
@@ -108,8 +121,14 @@ static void interpret(World *w, size_t self, std::shared_ptr<Script> sc, const s
             case 'w': sch.wait(); break;
             case 's': *w->ch[o.a] << (int)o.b; break;
             case 'r': { int v = -1; bool ok = (*w->ch[o.a] >> v); if (ok) res = "v" + std::to_string(v); else fail_if(false); } break;
-            case 'l': fail_if(w->mx[o.a]->lock()); break;
-            case 'u': w->mx[o.a]->unlock(); break;
+            case 'l':
+                if (sc->raii) scopes.emplace_back(o.a, std::unique_ptr<Mutex::Locker>(new Mutex::Locker(*w->mx[o.a])));
+                else fail_if(w->mx[o.a]->lock());
+                break;
+            case 'u':
+                if (sc->raii && !scopes.empty() && scopes.back().first == o.a) { leave_one(); continue; }
+                w->mx[o.a]->unlock();
+                break;
             case 'a': fail_if(w->sm[o.a]->acquire()); break;
             case 'v': w->sm[o.a]->release(); break;
             case 'p': w->bc[o.a]->post(); break;
@@ -125,7 +144,8 @@ static void interpret(World *w, size_t self, std::shared_ptr<Script> sc, const s
                 fail_if(create_routine(w, o.a, o.kind == 'n'));
                 break;
             case 'x': fail_if(sch.cancel(o.a < w->toks.size() ? w->toks[o.a] : RoutineToken())); break;
-            case 'e': w->info[self].finished = true; return;
+            case 'R': fail_if(sch.resume(o.a < w->toks.size() ? w->toks[o.a] : RoutineToken())); break;
+            case 'e': leave_all(); w->info[self].finished = true; return;
             case 't': throw std::runtime_error("C18 script: exception leaves the routine body");
             case 'K': w->sch.cleanup(); break;      // only the main context may: TBOX_ASSERT(isInMainRoutine())
         }
@@ -135,6 +155,7 @@ static void interpret(World *w, size_t self, std::shared_ptr<Script> sc, const s
             std::cout << "P e r=" << self << " " << o.text << " " << res << " c=" << (sch.isCanceled() ? 1 : 0) << "\n";
         if (failed && sc->xfail) break;
     }
+    leave_all();
     w->info[self].finished = true;
 }
 
@@ -187,7 +208,7 @@ static bool parse_sop1(const std::string &t, SOp &o, size_t ndefs) {
             if (o.sub == 'w') return num(rest.substr(1), o.a, kPrims);
             if (o.sub == 'a' || o.sub == 'p') return two(rest.substr(1));
             return false;
-        case 'j': case 'x': return num(rest, o.a, 64);
+        case 'j': case 'x': case 'R': return num(rest, o.a, 64);
         case 'n': case 'N': return num(rest, o.a, ndefs);
     }
     return false;
@@ -314,6 +335,11 @@ static void run_case(const std::string &header) {
                 sc->xfail = a == 1;
                 if (W->defs.size() >= 32 || !parse_script(w[2], *sc, W->defs.size())) { std::cout << "bad-op\n"; g_pending = false; continue; }
                 W->defs.push_back(sc);
+            } else if (w[0] == "defr" && w.size() == 2) {
+                auto sc = std::make_shared<Script>();
+                sc->xfail = false; sc->raii = true;
+                if (W->defs.size() >= 32 || !parse_script(w[1], *sc, W->defs.size())) { std::cout << "bad-op\n"; g_pending = false; continue; }
+                W->defs.push_back(sc);
             } else if (w[0] == "new" && w.size() == 3 && num(w[1], a, W->defs.size()) && num(w[2], b, 2)) {
                 create_routine(W, a, b == 1);
             } else if (w[0] == "resume" && w.size() == 2 && num(w[1], a, W->toks.size())) {
@@ -325,6 +351,8 @@ static void run_case(const std::string &header) {
             } else if (w[0] == "pass" && w.size() == 1) {
             } else if (w[0] == "stack" && w.size() == 2 && num(w[1], a, 1025) && (a == 64 || a == 128 || a == 256 || a == 1024)) {
                 W->stack = (size_t)a * 1024;
+            } else if (w[0] == "stackb" && w.size() == 2 && num(w[1], a, 1000000)) {
+                W->stack = (size_t)a;       // from 0: Routine::Routine clamps to ROUTINE_STACK_MIN_SIZE (patches/C18-08)
             } else if (w[0] == "semw" && w.size() == 3) {
                 const std::string &t = w[1];
                 std::string ds = t.size() && t[0] == '-' ? t.substr(1) : t;
